@@ -153,6 +153,227 @@ def clenshaw_rules(run, db):
     run.check(all(ast.unparse(r.value) == 'alphas[0]' for r in rets) and rets, 'C10.clenshaw', fj.qual, 'result', 'sum == alphas[0] (P_0 = 1)', 'jacobi_sum_clenshaw does not return alphas[0]', fj.loc())
 
 
+def _capture_sweep(db, qual, call_prysm_factory, presets=None):
+    """Interpret `qual` up to its (first) downward sweep; return (it, dom, frame, loop node, pre-loop stores, step store)."""
+    f = db.func(qual)
+    it, dom = PF.mk_order(db)
+    dom.call_prysm = call_prysm_factory(dom)
+    captured, stores = {}, []
+    orig_store = dom.store_subscript
+
+    def store_subscript(target, idx, val, node):
+        if isinstance(target, Sym):
+            stores.append((target.r, dom.rat(idx), dom.rat(val), node, list(dom.interp.conds)))
+            return True
+        return orig_store(target, idx, val, node)
+    dom.store_subscript = store_subscript
+    orig_ext = dom.call_ext
+
+    def call_ext(dotted, args, kwargs, node):
+        if dotted in ('numpy.empty', 'numpy.empty_like', 'numpy.zeros', 'numpy.zeros_like'):
+            return dom.sym('out_array')
+        return orig_ext(dotted, args, kwargs, node)
+    dom.call_ext = call_ext
+
+    def loop(node, frame):
+        if isinstance(node, ast.For):
+            captured['node'], captured['frame'] = node, frame
+            raise Capture()
+        return False
+    dom.loop = loop
+    kw = {p_: dom.sym(p_) for p_ in f.params}
+    kw.update(presets(dom) if presets else {})
+    reached, prefix = None, []
+    for attempt in range(16):
+        del stores[:]
+        captured.clear()
+        it._reset_run(prefix)
+        try:
+            it.call_funcinfo(f, [], dict(kw), None, None, toplevel=True)
+        except Capture:
+            reached = True
+            break
+        except Exception:
+            pass
+        tr = it.trace
+        while tr and tr[-1][0] + 1 >= tr[-1][1]:
+            tr.pop()
+        if not tr:
+            break
+        prefix = [c for c, _ in tr[:-1]] + [tr[-1][0] + 1]
+    if not reached:
+        raise AnalysisError('%s: sweep not reached' % qual)
+    node, fr = captured['node'], captured['frame']
+    pre = list(stores)
+    del stores[:]
+    fr.env[node.target.id] = dom.sym('n')
+    it.exec_block(node.body, fr)
+    if len(stores) != 1:
+        raise AnalysisError('%s: expected one store in the sweep step, found %d' % (qual, len(stores)))
+    return f, it, dom, fr, node, pre, stores[0]
+
+
+def basis_rules(run, db):
+    """Change of basis Q -> P (the transpose of the Q recurrences) feeding the Clenshaw sums."""
+    def atoms(dom):
+        def call_prysm(fi, args, kwargs, node):
+            if fi.name in ('g_qbfs', 'h_qbfs', 'f_qbfs', 'g_q2d', 'f_q2d'):
+                return dom.func_atom(fi.name, list(args))
+            return None
+        return call_prysm
+    for qual, cname, out, Mname, want_fn, text in (
+            (Q + 'change_basis_Qbfs_to_Pn', 'cs', 'bs', 'M',
+             lambda R, c, b, n, extra: (c(n) - Rat(R.func('g_qbfs', [n])) * b(n + 1) - Rat(R.func('h_qbfs', [n])) * b(n + 2)) / Rat(R.func('f_qbfs', [n])),
+             'b_n = (c_n - g_n b_(n+1) - h_n b_(n+2))/f_n  (transpose of P_n = f_n Q_n + g_(n-1) Q_(n-1) + h_(n-2) Q_(n-2))'),
+            (Q + 'change_of_basis_Q2d_to_Pnm', 'cns', 'ds', 'N',
+             lambda R, c, b, n, extra: (c(n) - Rat(R.func('g_q2d', [n, extra])) * b(n + 1)) / Rat(R.func('f_q2d', [n, extra])),
+             'd_n = (c_n - g_n^m d_(n+1))/f_n^m  (transpose of P_n = f_n Q_n + g_(n-1) Q_(n-1))')):
+        def presets(dom, cname=cname, out=out):
+            return {cname: dom.sym(cname), 'm': dom.sym('m')} if 'Q2d' in qual else {cname: dom.sym(cname)}
+        f, it, dom, fr, node, pre, step = _capture_sweep(db, qual, atoms, presets)
+        R = dom.R
+        tgt, s_idx, s_val, s_node, _ = step
+        n = Rat(R.atom('n'))
+        c = lambda k: Rat(R.func('idx', [Rat(R.atom(cname)), k]))
+        b = lambda k: Rat(R.func('idx', [tgt, k]))
+        extra = dom.rat(fr.env.get('m')) if 'Q2d' in qual else None
+        want = want_fn(R, c, b, n, extra)
+        run.check(s_idx is not None and s_idx == n and s_val is not None and s_val == want, 'C10.basis', f.qual, 'step', text,
+                  '%s: the sweep stores index %s = %s, expected %s' % (f.name, s_idx.key() if s_idx is not None else '?', s_val.key() if s_val is not None else '?', want.key()), f.loc(s_node))
+        M = dom.rat(fr.env[Mname])
+        known = {}
+        npre = 0
+        for t_, idx, val, nd, conds in pre:
+            if idx is None or val is None or not (t_ == tgt):
+                continue
+            stepv = want.subs({'n': idx})
+            sub = {}
+            for k in (1, 2):
+                (mm,) = b(idx + k).num.t
+                sub[mm[0][0]] = known.get((idx + k).key(), Rat(R.const(0)))
+            ok = stepv.subs(sub) == val.subs(sub)
+            run.check(ok, 'C10.basis', f.qual, 'initial store %s' % idx.key(), 'the entry at %s equals the general step with the entries above the top set to zero' % idx.key(),
+                      '%s: initial statement at index %s is %s, the step restricted to that index is %s' % (f.name, idx.key(), val.key(), stepv.subs(sub).key()), f.loc(nd))
+            known[idx.key()] = val
+            npre += 1
+        if npre < 1:
+            raise AnalysisError('%s: no initial stores found' % qual)
+        top = max(known)        # keys are strings; the top index is M / N
+        run.check(M.key() in known, 'C10.basis', f.qual, 'top entry', 'the top coefficient is converted first', 'the top entry %s is not initialised' % M.key(), f.loc())
+        rargs = [dom.rat(it.ev(a, fr)) for a in node.iter.args]
+        lowest_init = None
+        for k in known:
+            pass
+        ok = len(rargs) == 3 and rargs[1] == Rat(R.const(-1)) and rargs[2] == Rat(R.const(-1)) and any((M - j - 1) == rargs[0] for j in range(0, 3) if (M - j).key() in known)
+        run.check(ok, 'C10.basis', f.qual, 'sweep range', 'the sweep continues just below the initialised entries down to index 0', '%s sweeps %s' % (f.name, ast.unparse(node.iter)), f.loc(node))
+        if 'Q2d' in qual:
+            mv = fr.env.get('m')
+            okfold = any(isinstance(st, ast.If) and ast.unparse(st.test).replace(' ', '') == 'm<0' and [ast.unparse(x).replace(' ', '') for x in st.body] in (['m=-m'], ['m=abs(m)'])
+                         for st in f.node.body) or any(isinstance(st, ast.Assign) and ast.unparse(st).replace(' ', '') == 'm=abs(m)' for st in f.node.body)
+            run.check(okfold, 'C10.basis', f.qual, 'order sign', 'a negative azimuthal order is converted with |m|', 'change_of_basis_Q2d_to_Pnm no longer folds the sign of m', f.loc())
+
+
+def assembly_rules(run, db):
+    """The value a Clenshaw sum returns is alpha_0 P_0 + alpha_1 (P_1 - L_0 P_0), with P_0, P_1, L_0 those of the value routine;
+    the effective Q2d coefficients of the special orders reproduce the published starting polynomials."""
+    from .common import norm_interp, snapshot_loops
+    # ---- Qbfs: P_0, P_1 and c from the value routine
+    it, dom = norm_interp(db)
+    R = dom.R
+
+    def call_prysm(fi, args, kwargs, node):
+        if fi.name in ('g_qbfs', 'h_qbfs', 'f_qbfs', 'change_basis_Qbfs_to_Pn', '_initialize_alphas'):
+            return dom.func_atom(fi.name, list(args)) if fi.name.endswith('qbfs') else dom.sym('alphas' if fi.name == '_initialize_alphas' else 'bs')
+        return None
+    dom.call_prysm = call_prysm
+    snaps = snapshot_loops(it, dom)
+    fq = db.func(Q + 'Qbfs')
+    it.run(fq, kwargs=lambda: {'n': dom.sym('n'), 'x': dom.sym('u')})
+    sn = [s_ for s_ in snaps]
+    if not sn:
+        raise AnalysisError('Qbfs: sweep not found')
+    P0, P1, cc = [dom.rat(sn[0].env.get(k)) for k in ('Pnm2', 'Pnm1', 'c')]
+    usq = Rat(R.atom('usq'))
+    u2 = Rat(R.atom('u')) * Rat(R.atom('u'))
+    P0, P1, cc = [v.subs({'u': Rat(R.sqrt(usq))}) if v is not None else None for v in (P0, P1, cc)]
+    del snaps[:]
+    fc = db.func(Q + 'clenshaw_qbfs')
+    stores = []
+    orig_store = dom.store_subscript
+
+    def store_subscript(target, idx, val, node):
+        if isinstance(target, Sym):
+            stores.append((target, idx, val))
+            return True
+        return orig_store(target, idx, val, node)
+    dom.store_subscript = store_subscript
+    res = [p for p in it.run(fc, kwargs=lambda: {'cs': dom.sym('cs'), 'usq': dom.sym('usq'), 'alphas': Const(None)}) if p.outcome == 'return']
+    a = lambda k: Rat(R.func('idx', [Rat(R.atom('alphas')), Rat(R.const(k))]))
+    want = (usq * (1 - usq)) * (a(0) * P0 + a(1) * (P1 - cc * P0))
+    ok = bool(res) and all(dom.rat(p.value) is not None and dom.rat(p.value) == want for p in res)
+    run.check(ok, 'C10.assembly', fc.qual, 'value', 'clenshaw_qbfs returns x(1-x) [alpha_0 P_0 + alpha_1 (P_1 - (2-4x) P_0)] with P_0, P_1 and the multiplier those of Qbfs (= 2 x(1-x)(alpha_0 + alpha_1))',
+              'clenshaw_qbfs returns %s, expected %s' % (dom.rat(res[0].value).key() if res and dom.rat(res[0].value) is not None else '?', want.key()), fc.loc())
+    dom.store_subscript = orig_store
+    dom.loop = lambda node, frame: False
+    # ---- Q2d: published starting polynomials vs the effective Clenshaw coefficients
+    it2, dom2 = norm_interp(db)
+    R2 = dom2.R
+    fa = db.func(Q + 'abc_q2d_clenshaw')
+
+    def call2(fi, args, kwargs, node):
+        if fi.name == 'abc_q2d':
+            return Tup([dom2.func_atom('%s_q2d' % c_, list(args)) for c_ in 'ABC'])
+        return None
+    dom2.call_prysm = call2
+    x = Rat(R2.atom('x'))
+    C_ = lambda v: Rat(R2.const(v))
+    P = {(1, 0): C_(1) / 2, (1, 1): 1 - x / 2, (1, 2): (3 - x * (12 - 8 * x)) / 6, (1, 3): (5 - x * (60 - x * (120 - 64 * x))) / 10}
+    for mm in (2, 3):
+        P[(mm, 0)] = C_(1) / 2
+        P[(mm, 1)] = (C_(mm) - C_(1) / 2) + (1 - C_(mm)) * x
+
+    def abc(nn, mm):
+        res_ = [p for p in it2.run(fa, kwargs=lambda: {'n': Const(nn), 'm': Const(mm)}) if p.outcome == 'return']
+        if len(res_) != 1 or not isinstance(res_[0].value, Tup):
+            raise AnalysisError('abc_q2d_clenshaw(%d, %d): not one (A, B, C)' % (nn, mm))
+        return [dom2.rat(v) for v in res_[0].value.items]
+    # published starting polynomials (the same ones C07.qloop holds Q2d to)
+    for mm in (1, 2, 3):
+        A0, B0, C0 = abc(0, mm)
+        ok = all(v is not None for v in (A0, B0)) and (A0 + B0 * x) * P[(mm, 0)] == P[(mm, 1)]
+        run.check(ok, 'C10.assembly', fa.qual, 'P_1^%d' % mm, '(A_0 + B_0 x) P_0 reproduces the published P_1^%d' % mm,
+                  'abc_q2d_clenshaw(0, %d) = (%s, %s): (A + B x)/2 is not the published P_1^%d = %s' % (mm, A0, B0, mm, P[(mm, 1)].key()), fa.loc())
+    A1, B1, C1 = abc(1, 1)
+    ok = (A1 + B1 * x) * P[(1, 1)] - C1 * P[(1, 0)] == P[(1, 2)]
+    run.check(ok, 'C10.assembly', fa.qual, 'P_2^1', '(A_1 + B_1 x) P_1 - C_1 P_0 reproduces the published P_2^1', 'abc_q2d_clenshaw(1, 1) does not reproduce P_2^1', fa.loc())
+    A2, B2, C2 = abc(2, 1)
+    resid = (A2 + B2 * x) * P[(1, 2)] - C2 * P[(1, 1)] - P[(1, 3)]
+    fz = db.func(Q + 'compute_z_zprime_Q2d')
+    # the correction applied to the Clenshaw sum: S = P_0 alpha_0 - (residual) alpha_3 for m == 1 and at least four coefficients
+    corr = [n for n in walk_no_nested(fz.node) if isinstance(n, ast.AugAssign) and isinstance(n.op, ast.Sub) and 'alphas_' in ast.unparse(n.value) and '[3]' in ast.unparse(n.value)]
+    base = [n for n in walk_no_nested(fz.node) if isinstance(n, ast.Assign) and 'alphas_' in ast.unparse(n.value) and ast.unparse(n.value).endswith('[0]')]
+    okc = resid.num.is_const() and resid.den.is_const() and len(corr) == 4 and len(base) == 4
+    vals = set()
+    for n in corr:
+        v = n.value
+        if isinstance(v, ast.BinOp) and isinstance(v.op, ast.Mult):
+            try:
+                vals.add(dom2.rat(Const(eval(compile(ast.Expression(v.left), '<c>', 'eval'), {'__builtins__': {}}))))
+            except Exception:
+                okc = False
+    bvals = set()
+    for n in base:
+        v = n.value
+        if isinstance(v, ast.BinOp) and isinstance(v.op, ast.Mult) and isinstance(v.left, ast.Constant):
+            bvals.add(dom2.rat(Const(v.left.value)))
+    run.check(okc and vals == {resid} and bvals == {P[(1, 0)]}, 'C10.assembly', fz.qual, 'm = 1 correction',
+              'S = P_0 alpha_0 - rho alpha_3 with rho = (A_2 + B_2 x) P_2^1 - C_2 P_1^1 - P_3^1 = %s (the published P_3^1 is off the effective recurrence by a constant), same for the derivative row' % resid.key(),
+              'compute_z_zprime_Q2d uses S = %s alpha_0 - %s alpha_3; the effective recurrence leaves the residual %s against the published P_3^1 and P_0 = 1/2' % (sorted(b_.key() for b_ in bvals), sorted(v_.key() for v_ in vals), resid.key()), fz.loc())
+    guards = {ast.unparse(n.test).replace(' ', '') for n in walk_no_nested(fz.node) if isinstance(n, ast.If) and any(c_ in n.body for c_ in corr)}
+    run.check(guards == {'m==1andNa>2', 'm==1andNb>2'}, 'C10.assembly', fz.qual, 'm = 1 guard', 'the correction is applied exactly when m == 1 and the family has an alpha_3 (more than three coefficients)',
+              'the m = 1 correction is guarded by %s' % sorted(guards), fz.loc())
+
+
 def len1_rules(run, db):
     """With len(coefficients) >= 1, no negative index / order is formed."""
     for qual, cname in ((PF.PJ + 'jacobi_sum_clenshaw', 's'), (Q + 'clenshaw_qbfs', 'cs'), (Q + 'clenshaw_q2d', 'cns')):
@@ -459,7 +680,11 @@ def check(run, db, tier):
     run.rule('C10.sym', 'cosine and sine azimuthal families are guarded symmetrically; no Clenshaw sum runs on an empty family')
     run.rule('C10.pack', 'the coefficient packer never takes max() of a possibly empty key set; its azimuthal range is bounded by the maximum KEY of both dictionaries')
     run.rule('C10.lstsq', 'data and modes are restricted by one and the same finite-mask before the solve')
-    for fn in (clenshaw_rules, len1_rules, sym_rules, mirror_rules, pack_rules, lstsq_rules):
+    run.rule('C10.basis', 'Q->P change of basis (Qbfs, Q2d): every entry is the transposed Q recurrence with the coefficient indices of its own order; initial entries are the step restricted; the sweep reaches 0')
+    run.rule('C10.assembly', 'Clenshaw results are alpha_0 P_0 + alpha_1 (P_1 - L_0 P_0) with the value routine\'s P_0, P_1, L_0; the effective Q2d coefficients of the special orders reproduce the published starting polynomials and the m = 1 correction is their residual')
+    for fn in (clenshaw_rules, basis_rules, assembly_rules, len1_rules, sym_rules, mirror_rules, pack_rules, lstsq_rules):
         run.group(fn, run, db)
+    run.require_instances('C10.basis', 9)
+    run.require_instances('C10.assembly', 7)
     run.require_instances('C10.clenshaw', 12)
     run.require_instances('C10.len1', 4)
